@@ -202,6 +202,9 @@ func cmdHist(args []string) int {
 	if f.Extra["features"] == "pcev" {
 		prof.Features = []Feat{allOn, {true, true, false, false, false}, {true, true, true, false, true}}
 	}
+	if f.Extra["oddkeys"] == "1" {
+		prof.OddKeys = true
+	}
 	if f.Extra["profile"] == "ik" {
 		prof.IKHeavy = true
 	}
